@@ -187,12 +187,28 @@ class GGen:
         r = self.r
         n = r.weighted([(1, 5), (2, 4), (3, 1)])
         alts = [self.seq(i, depth, guarded) for _ in range(n)]
+        later = self.names[i + 1:]
+        if n >= 2 and later and self.f.get("twins", True) and r.chance(0.35):
+            # "twin prefix": every alternative starts with a reference to the SAME rule, in different
+            # guises (plain, suppressed `R-`, assigned `a=R`), followed by a distinguishing literal, so
+            # that after backtracking the rule is attempted again at the same input position through a
+            # different referencing expression (packrat caches, suppression, assignment wrappers).
+            target = ("ref", r.choice(later))
+            guises = r.shuffle(["sup", r.choice(["plain", "asg"])] + [r.choice(["plain", "sup", "asg"]) for _ in range(n - 2)])
+            lits = r.shuffle(LITS[:8])
+            new_alts = []
+            for k, a in enumerate(alts):
+                head = {"plain": target, "sup": ("sup", target),
+                        "asg": ("asg", r.choice(ATTRS), "=", target, None, False)}[guises[k]]
+                rest = a[1] if a[0] == "seq" else [a]
+                new_alts.append(("seq", [head, ("str", lits[k])] + (rest if r.chance(0.5) else [])))
+            alts = new_alts
         return alts[0] if n == 1 else ("alt", alts)
 
 
 def gen_grammar(r, features=None):
-    """features: dict(modifiers=bool, eolterm=bool, comment=bool, unordered=bool, context_clash=bool)"""
-    f = dict(modifiers=True, eolterm=True, comment=True, unordered=True, context_clash=False)
+    """features: dict(modifiers=bool, eolterm=bool, comment=bool, unordered=bool, context_clash=bool, twins=bool)"""
+    f = dict(modifiers=True, eolterm=True, comment=True, unordered=True, context_clash=False, twins=True)
     f.update(features or {})
     nrules = r.range(2, 6)
     comment = None
@@ -222,10 +238,12 @@ def gen_grammar(r, features=None):
         a, b = gg.names[1], gg.names[2] if nrules > 3 else gg.names[1]
         t1, t2 = r.choice(LITS[:8]), r.choice(LITS[:8])
         pa = r.choice([{"skipws": False}, {"ws": " "}, {"ws": ""}, {"skipws": False}])
-        body_a = ("seq", [("asg", "x", "=", ("ref", shared), None, False), ("str", t1)]) if r.chance(0.5) else \
-                 ("seq", [("ref", shared), ("str", t1)])
-        body_b = ("seq", [("asg", "x", "=", ("ref", shared), None, False), ("str", t2)]) if r.chance(0.5) else \
-                 ("seq", [("ref", shared), ("str", t2)])
+        def use(t):
+            c = r.weighted([("asg", 4), ("plain", 4), ("sup", 2)])
+            head = {"asg": ("asg", "x", "=", ("ref", shared), None, False), "plain": ("ref", shared),
+                    "sup": ("sup", ("ref", shared))}[c]
+            return ("seq", [head, ("str", t)])
+        body_a, body_b = use(t1), use(t2)
         new = [("Model", {}, ("alt", [("asg", "a", "=", ("ref", "CA"), None, False), ("asg", "b", "=", ("ref", "CB2"), None, False)])),
                ("CA", pa, body_a), ("CB2", {} if r.chance(0.7) else {"skipws": True}, body_b)]
         rules = new + [x for x in rules[1:]]
